@@ -360,6 +360,9 @@ func (v *Verifier) verifyCase(fi *FuncInfo, con *Contract, rep *FuncReport, case
 	for _, e := range fi.CutErr {
 		v.notes = append(v.notes, rep.Name+": unbound "+e)
 	}
+	if fi.RenameNote != "" {
+		v.notes = append(v.notes, fi.RenameNote)
+	}
 	entryPC := append([]*Term{}, st.pc...)
 
 	outs := v.execBlock(fr, st, fi.Decl.Body.List)
